@@ -11,6 +11,7 @@ import (
 	"context"
 	"encoding/json"
 	"fmt"
+	"math"
 	"sort"
 	"strconv"
 	"testing"
@@ -189,10 +190,10 @@ type Record struct {
 
 // RecRes is one side (capacity / usage) of the raw record.
 type RecRes struct {
-	CPU        float64          `json:"cpu"`
-	CPUMap     map[string]int   `json:"cpu_map"`
-	Memory     int64            `json:"memory"`
-	NUMAMemory map[string]int64 `json:"numa_memory"`
+	CPU        float64           `json:"cpu"`
+	CPUMap     map[string]int    `json:"cpu_map"`
+	Memory     int64             `json:"memory"`
+	NUMAMemory map[string]int64  `json:"numa_memory"`
 	NUMA       map[string]string `json:"numa"`
 }
 
@@ -454,6 +455,9 @@ func genCPU(t *rapid.T, label string, sb, maxCores int) (float64, int) {
 
 func genMem(t *rapid.T, label string, n Node) int64 {
 	switch p := vt.Pct(t, label+"Kind"); {
+	case p < 4:
+		// amounts whose product with a small instance count no longer fits in an int64
+		return rapid.SampledFrom([]int64{1 << 61, 1 << 62, math.MaxInt64 / 3, math.MaxInt64/2 + 1, 1 << 60}).Draw(t, label+"Huge")
 	case p < 22:
 		return 0
 	case p < 60:
